@@ -261,6 +261,11 @@ func (w *World) ruleValuesPerIteration(r *Report, rule string) {
 			// with emit chosen before the loop) is one loop per function value it runs
 			bind := ""
 			for _, e := range p.Trace {
+				if e.Kind == "loophead" && w.literalLoopHead(e) {
+					// `for _, part := range header` over a local array of N parts is its body N
+					// times (pxlocalarray.go): what it emits belongs to the enclosing iteration
+					continue
+				}
 				if e.Kind == "loophead" {
 					if cur == e.Extra && (v > 0 || m > 0 || true) {
 						if emis[cur] == nil {
